@@ -64,6 +64,11 @@ def run(ctx, out):
     beh = rc.behaviours(ctx, out, 100 if ctx.quick else 1000, 110, cfg="RaceDriver.c09.sim.cfg", seed_off=9, with_fault=True)
     for i, (scn, script, fault) in enumerate(beh):
         jobs.append({"scn": scn, "script": script, "seed": ctx.seed + i, "test_mode": True, "qmax": 100, "fault": fault, "req_variant": ["conn_error", "api_error", "runner", "unsuccessful"][i % 4]})
+    # generated scenario family (racecommon.gen_scenarios) with one fault per behaviour
+    gbeh, ngen = rc.behaviours_gen(ctx, out, 30 if ctx.quick else 400, 30 if ctx.quick else 400, 110, seed_off=19, base_cfg="RaceDriver.c09.sim.cfg", with_fault=True)
+    for i, (scn, script, fault) in enumerate(gbeh):
+        jobs.append({"scn": scn, "script": script, "seed": ctx.seed + 8000 + i, "test_mode": True, "qmax": 100, "fault": fault, "req_variant": ["conn_error", "api_error", "runner", "unsuccessful"][i % 4]})
+    out.extra["generated_scenarios"] = ngen
     scns = []
     seen = set()
     for scn, _s, _f in beh:
